@@ -1,6 +1,7 @@
 package main
 
 import (
+	"bytes"
 	"encoding/binary"
 	"errors"
 	"fmt"
@@ -9,8 +10,8 @@ import (
 
 	rProto "github.com/thomasjungblut/go-sstables/recordio/proto"
 	"github.com/thomasjungblut/go-sstables/skiplist"
-	sProto "github.com/thomasjungblut/go-sstables/sstables/proto"
 	"github.com/thomasjungblut/go-sstables/sstables"
+	sProto "github.com/thomasjungblut/go-sstables/sstables/proto"
 )
 
 // engine "merge": builds lists of real tables (oldest -> newest), probes the stacked reader, runs Merge / MergeCompact into a new
@@ -24,6 +25,7 @@ type mergeCase struct {
 	Super  bool       `json:"super"`
 	V0     []int      `json:"v0"`     // tables written in the legacy (version 0) layout: no metadata file, values wrapped in a DataEntry message (only tables without nil / empty values)
 	Nest   string     `json:"nest"`   // "" flat stack | "left": Super(Super(t0..tk-1), tk..) | "pairs": Super(Super(t0,t1), Super(t2,t3), ..) | "right": Super(t0, Super(t1..))
+	Cmp    string     `json:"cmp"`    // "" bytes | "nocase": all tables, the stack and the merger run under the case-insensitive comparator; every other table spells its keys in upper case
 	Loader string     `json:"loader"` // index loader of the input readers: "" default | disk | disk-shared (ONE loader value for all tables) | skiplist | map
 }
 
@@ -196,9 +198,12 @@ func runMerge(args []string) error {
 		if r, ok := rank[string(b)]; ok {
 			return r
 		}
+		if r, ok := rank[string(bytes.ToLower(b))]; ok {
+			return r
+		}
 		return -2
 	}
-	cmp := skiplist.BytesComparator{}
+	var cmp skiplist.Comparator[[]byte] = skiplist.BytesComparator{}
 	drain := func(it sstables.SSTableIteratorI, err error) ([][]any, string) {
 		out := [][]any{}
 		if err != nil {
@@ -231,6 +236,11 @@ func runMerge(args []string) error {
 	for ci, c := range in.Cases {
 		base := filepath.Join(in.Dir, fmt.Sprintf("m%d", ci))
 		tr.emit(M{"t": "reset", "case": ci})
+		cmp = skiplist.BytesComparator{}
+		if c.Cmp == "nocase" {
+			cmp = nocaseCmp{}
+			c.Loader = "skiplist" // the only index loader that orders keys with the comparator it is given
+		}
 		var readers []sstables.SSTableReaderI
 		tabsJSON := []M{}
 		sharedDisk := &sstables.DiskIndexLoader{}
@@ -250,7 +260,11 @@ func runMerge(args []string) error {
 			for _, e := range t {
 				k := int(e[0].(float64))
 				tok := e[1].(string)
-				if err := w.WriteNext(keys[k], vb(tok)); err != nil {
+				wk := keys[k]
+				if c.Cmp == "nocase" && ti%2 == 1 {
+					wk = bytes.ToUpper(wk)
+				}
+				if err := w.WriteNext(wk, vb(tok)); err != nil {
 					return fmt.Errorf("building table: %w", err)
 				}
 				tm[fmt.Sprint(k)] = tok
@@ -333,7 +347,9 @@ func runMerge(args []string) error {
 				if err != nil {
 					r = "err:" + err.Error()
 				}
-				tr.emit(M{"t": "contains", "k": p, "r": r})
+				if c.Cmp != "nocase" { // the bloom filter hashes bytes: under a comparator that identifies different byte strings Contains is not comparable
+					tr.emit(M{"t": "contains", "k": p, "r": r})
+				}
 				v, err := sup.Get(keys[p])
 				switch {
 				case errors.Is(err, sstables.NotFound):
